@@ -35,6 +35,10 @@ enum Behaviour {
     SigLen(usize),
     Garbage(Vec<u8>),
     IoError,
+    /// identities answer in which keys of another type (ssh-rsa) precede some of the ed25519 keys (bit mask)
+    MixedKinds(u32),
+    /// identities answer whose blobs are secret keys in wire encoding; the key-pair string of entry 0 cut to n bytes
+    SecretBlobs(Vec<[u8; 64]>, Option<usize>),
 }
 
 struct Shared {
@@ -116,6 +120,49 @@ impl ClientStream for SimAgent {
                 out
             }
             Behaviour::Garbage(b) => b,
+            Behaviour::MixedKinds(mask) => {
+                let mut body: Vec<u8> = Vec::new();
+                let mut n = 0u32;
+                for (i, k) in sh.keys.iter().enumerate() {
+                    if mask & (1 << i) != 0 {
+                        let mut rsa: Vec<u8> = Vec::new();
+                        rsa.extend_ssh_string(b"ssh-rsa");
+                        rsa.extend_ssh_string(&[1, 0, 1]);
+                        rsa.extend_ssh_string(&[0x00, 0xc3, 0x51, 0x7a, 0x11, 0x42, 0x99, 0x08, 0x5d]);
+                        body.extend_ssh_string(&rsa);
+                        body.extend_ssh_string(b"an rsa key");
+                        n += 1;
+                    }
+                    // `write` emits the key blob as one string
+                    k.public_key().write(&mut body);
+                    body.extend_ssh_string(b"comment");
+                    n += 1;
+                }
+                let mut out: Vec<u8> = vec![IDENTITIES_ANSWER];
+                out.extend_u32(n);
+                out.extend_from_slice(&body);
+                out
+            }
+            Behaviour::SecretBlobs(sks, cut) => {
+                let mut out: Vec<u8> = vec![IDENTITIES_ANSWER];
+                out.extend_u32(sks.len() as u32);
+                for (i, raw) in sks.iter().enumerate() {
+                    let sk = radicle::crypto::SecretKey::from(*raw);
+                    let mut blob: Vec<u8> = Vec::new();
+                    match (i, cut) {
+                        (0, Some(n)) => {
+                            blob.extend_ssh_string(b"ssh-ed25519");
+                            blob.extend_ssh_string(&raw[32..]);
+                            blob.extend_ssh_string(&raw[..n.min(64)]);
+                            blob.extend_ssh_string(b"radicle");
+                        }
+                        _ => sk.write(&mut blob),
+                    }
+                    out.extend_ssh_string(&blob);
+                    out.extend_ssh_string(b"comment");
+                }
+                out
+            }
             Behaviour::IoError => return Err(Error::Io(std::io::Error::from(std::io::ErrorKind::UnexpectedEof))),
         };
         Ok(Buffer::from(resp))
@@ -171,9 +218,48 @@ pub fn run(ch: &mut Chooser, cfg: &RunCfg) -> RunResult {
             res.hit(&format!("fault.agent.{}", format!("{b:?}").split(['(', ' ']).next().unwrap_or("x").to_lowercase()));
         }
         shared.lock().unwrap().next = b.clone();
-        let call = ch.weighted(&[4, 5, 1, 1]);
+        let call = ch.weighted(&[4, 5, 1, 1, 2]);
         match call {
+            4 => {
+                // secret keys in wire encoding (as read back by the key-adding path), through the same parser
+                let n = 1 + ch.pick_usize(3);
+                let sks: Vec<[u8; 64]> = (0..n).map(|_| <[u8; 64]>::try_from(ch.bytes(64).as_slice()).unwrap()).collect();
+                let cut = if faults && ch.pick(2) == 0 { Some(*ch.choose(&[0usize, 1, 31, 32, 33, 63])) } else { None };
+                shared.lock().unwrap().next = Behaviour::SecretBlobs(sks.clone(), cut);
+                if cut.is_some() {
+                    res.hit("fault.agent.secret_key_pair_cut");
+                }
+                let r = catch(|| client.request_identities::<radicle::crypto::SecretKey>());
+                match r {
+                    Err(p) => {
+                        res.trace.log("panic", format!("request_identities::<SecretKey> panicked (key pair cut to {cut:?}): {}", p.message));
+                        res.violate(own, "C27", &format!("C27/panic/request_identities_secret/{}", p.class()), format!("reading a secret key whose key-pair string is cut to {cut:?} bytes panicked: {}", p.message));
+                        break;
+                    }
+                    Ok(Ok(ks)) => {
+                        res.trace.log("secret-identities", format!("request_identities::<SecretKey> (cut {cut:?}) -> {} key(s)", ks.len()));
+                        let want: Vec<radicle::crypto::SecretKey> = sks.iter().enumerate().filter(|(i, _)| !(*i == 0 && cut.is_some())).map(|(_, raw)| radicle::crypto::SecretKey::from(*raw)).collect();
+                        res.hit("probe.agent.secret_keys_read_back");
+                        if ks != want {
+                            res.violate(own, "C27", "C27/roundtrip/secret-keys-differ", format!("{} secret key(s) written in wire encoding, {} read back equal", want.len(), ks.len()));
+                        }
+                    }
+                    Ok(Err(e)) => {
+                        res.trace.log("secret-identities-err", format!("request_identities::<SecretKey> (cut {cut:?}) -> error {e}"));
+                        if cut.is_none() {
+                            res.violate(own, "C27", "C27/roundtrip/secret-keys-error", format!("valid secret keys, client error: {e}"));
+                        }
+                    }
+                }
+            }
             0 => {
+                // sometimes the (otherwise honest) agent also holds keys of a type the client does not support
+                let mixed = honest && !keys.is_empty() && ch.pick(3) == 0;
+                if mixed {
+                    let mask = 1 + ch.pick((1u32 << keys.len()) - 1);
+                    shared.lock().unwrap().next = Behaviour::MixedKinds(mask);
+                    res.hit("fault.agent.unsupported_key_types_listed");
+                }
                 let r = catch(|| client.request_identities::<PublicKey>());
                 match r {
                     Err(p) => {
